@@ -230,18 +230,18 @@ def _search_type_serde(here, out):
 
 
 def _search_let_release(here, out):
-    """programs of the repaired let-scope findings (F17: partial record pattern); F15 / F16 are listed known findings and
-    are replayed by the known-findings loop, not here"""
+    """programs of the repaired let-scope findings (F16: aliased variable, F17: partial record pattern); F15 is a listed
+    known finding and is replayed by the known-findings loop, not here"""
     exe, err = _build("ffi_serde", here, out)
     if exe is None:
         return None, "replay harness does not build against the current tree: " + err[-400:]
-    for idx in ("2",):
+    for idx in ("1", "2"):
         try:
             p = subprocess.run([exe, "let-release", idx], capture_output=True, text=True, timeout=300)
         except subprocess.TimeoutExpired:
             return None, "replay timeout"
         if p.stdout.strip().startswith("FAILS"):
-            return {"cmd": ["ffi_replay", "let-release", idx], "value": p.stdout.strip()[6:400], "clause": "bind_record::ensures[every counted field of a destructured record gets its own references]"}, ""
+            return {"cmd": ["ffi_replay", "let-release", idx], "value": p.stdout.strip()[6:400], "clause": "let_local_init / bind_record::ensures[a local released at scope exit holds references of its own]"}, ""
     return None, "let-release: HOLDS"
 
 
